@@ -3,6 +3,7 @@ from __future__ import annotations
 import ast
 import builtins
 import collections
+import copy
 import dataclasses
 import functools
 import itertools
@@ -1375,6 +1376,13 @@ def compile_template(
             replacement_name = name
 
         source = source.replace("{{" + replacement_name + suffix + "}}", wildcard_placeholder_name)
+
+        # The transformer modifies nodes in place, and the template may be a node of a (cached)
+        # syntax tree that must stay as it is.
+        if isinstance(template, ast.AST) and not isinstance(
+            template, (Wildcard, ZeroOrOne, ZeroOrMany, OneOrMany)
+        ):
+            template = copy.deepcopy(template)
 
         template = transformer.visit(template)
         if name in {"ZeroOrOne_anything", "ZeroOrMany_anything", "OneOrMany_anything"}:
